@@ -404,7 +404,7 @@ def _check_batch_outcome(w: World, got: Tuple[Any, ...], calls: List[gen.Logical
 
 FAMILIES = {'e2e.single': fam_single, 'e2e.batch': fam_batch}
 PLAN = {
-    'quick': {'e2e.single': 3000, 'e2e.batch': 3000},
+    'quick': {'e2e.single': 30000, 'e2e.batch': 30000},
     'thorough': {'e2e.single': 20000, 'e2e.batch': 20000},
 }
 THOROUGH_BUDGET_S = 600
